@@ -13,6 +13,9 @@ import subprocess
 import sys
 
 VERIF = os.path.dirname(os.path.dirname(os.path.abspath(__file__)))
+# TRY_REPO: a scratch worktree to apply the change to instead of /repo (the
+# checks then run with VERIF_REPO pointing at it)
+TARGET = os.environ.get("TRY_REPO", "/repo")
 
 
 def sh(cmd, **kw):
@@ -45,16 +48,16 @@ def main():
     finally:
         sh("git -C /repo worktree remove --force %s" % wt)
         sh("git -C /repo worktree prune")
-    assert sh("git -C /repo status --porcelain").stdout.strip() == "", \
-        "/repo is dirty"
-    r = sh("git -C /repo apply %s" % os.path.abspath(patch))
+    assert sh("git -C %s status --porcelain" % TARGET).stdout.strip() == "", \
+        "target repo is dirty"
+    r = sh("git -C %s apply %s" % (TARGET, os.path.abspath(patch)))
     # evidence/ and replays/ written while the change is applied describe the
     # changed tree: they are put back afterwards
     ev_backup = "/tmp/try_mutant_evidence_%d" % os.getpid()
     shutil.copytree(os.path.join(VERIF, "evidence"), ev_backup)
     try:
         for p in props:
-            env = dict(os.environ, VERIF_TIER=tier)
+            env = dict(os.environ, VERIF_TIER=tier, VERIF_REPO=TARGET)
             c = sh("%s/check %s --tier %s" % (VERIF, p, tier), env=env,
                    timeout=3600)
             lines = [l for l in c.stdout.splitlines()
@@ -62,10 +65,11 @@ def main():
             res["checks"][p] = {"rc": c.returncode, "lines": lines[:6],
                                 "tier": tier}
     finally:
-        sh("git -C /repo checkout -- .")
+        sh("git -C %s checkout -- ." % TARGET)
+        sh("git -C %s clean -fdq" % TARGET)
         shutil.rmtree(os.path.join(VERIF, "evidence"))
         shutil.move(ev_backup, os.path.join(VERIF, "evidence"))
-    assert sh("git -C /repo status --porcelain").stdout.strip() == ""
+    assert sh("git -C %s status --porcelain" % TARGET).stdout.strip() == ""
     out = os.path.join(VERIF, "seeded", sid)
     os.makedirs(out, exist_ok=True)
     shutil.copy(patch, out)
